@@ -27,12 +27,14 @@ ASSUMPTIONS = [
     'pair on an already recorded label (the commands themselves warn that '
     'anything else desynchronises the log)',
 ]
-FLOORS = {'quick': {'nontrivial': 10, 'runs': 100, 'labels_checked': 100,
+FLOORS = {'quick': {'decoy_runs': 10, 
+                    'nontrivial': 10, 'runs': 100, 'labels_checked': 100,
                     'wipe_commands': 3, 'mark_commands': 3,
                     'marker_counts_checked': 60,
                     'tail_schedules': 3,
                     'mark_recorded_attempts': 10},
-          'thorough': {'nontrivial': 150, 'runs': 1500,
+          'thorough': {'decoy_runs': 60, 
+                       'nontrivial': 150, 'runs': 1500,
                        'labels_checked': 1500, 'wipe_commands': 40,
                        'mark_commands': 40, 'marker_counts_checked': 800,
                        'tail_schedules': 40,
